@@ -20,7 +20,7 @@ def run(ck):
             hist[l.split(" ", 2)[1]] = l
     direct_fail = [l for l in ex if l.startswith("direct ") and " FAIL " in l]
     for l in direct_fail:
-        ck.fail_input("counter_window", l, [l])
+        ck.fail_input("store_map" if l.startswith("direct store_map") else "counter_window", l, [l])
     tie_only = []
     for l in lines:
         if l.startswith("propfail hist "):
